@@ -171,6 +171,36 @@ def search(ck, tier, seed):
         tot = integrate_1d(logp) if F_ == 1 else integrate_2d(logp, -14, 14, 561)
         if abs(tot - 1) > 2e-5:
             ck.finding("normalisation:MADEMoG", "features %d integrates to %r" % (F_, tot), {"search": "mog", "features": F_})
+    # ---- MADE mixture, three features, the architectures MADE offers (random masks need feed-forward blocks): 3-D quadrature
+    for cfgi, (resid, rnd, blocks) in enumerate(((True, False, 2), (False, False, 2), (False, True, 2), (False, True, 3))):
+        for draw in range(2 if rnd else 1):
+            torch.manual_seed(seed + 31 * cfgi + draw)
+            made = attempt(lambda: mixture.MADEMoG(3, 12, 0, num_blocks=blocks, num_mixture_components=2, use_residual_blocks=resid,
+                                                   random_mask=rnd, custom_initialization=True).double().eval())
+            case = {"search": "mog-3d", "residual": resid, "random_mask": rnd, "blocks": blocks, "draw": draw, "seed": seed}
+            ck.case(("mog3", resid, rnd, blocks, draw), nontrivial=True)
+            if made[0] != "ok":
+                ck.finding("construct-fails:MADEMoG", "%s %s" % (made[1], made[2]), case)
+                continue
+            d = made[1]
+            gg = torch.Generator(); gg.manual_seed(seed + cfgi + 7 * draw)
+            with torch.no_grad():
+                for prm in d.parameters():
+                    prm.add_(torch.randn(prm.shape, generator=gg, dtype=torch.float64) * 0.25)
+            n3, lo3, hi3 = 97, -12.0, 12.0
+            xs = np.linspace(lo3, hi3, n3)
+            X, Y, Z = np.meshgrid(xs, xs, xs, indexing="ij")
+            pts = torch.tensor(np.stack([X.ravel(), Y.ravel(), Z.ravel()], 1), dtype=torch.float64)
+            with torch.no_grad():
+                lp = attempt(lambda: torch.cat([d.log_prob(ch) for ch in pts.split(200000)]))
+            if lp[0] != "ok":
+                ck.finding("log_prob-fails:MADEMoG", "%s %s" % (lp[1], lp[2]), case)
+                continue
+            vals = np.exp(lp[1].numpy()).reshape(n3, n3, n3)
+            tot = float(np.trapezoid(np.trapezoid(np.trapezoid(vals, xs, axis=2), xs, axis=1), xs))
+            if abs(tot - 1) > 3e-4:
+                ck.finding("normalisation:MADEMoG", "3 features (%s blocks x%d, %s masks): integrates to %r"
+                           % ("residual" if resid else "feed-forward", blocks, "random" if rnd else "sequential", tot), case)
     # ---- MADE mixture: samples follow the density (1-D, several component counts; fixed seed, KS distance to the integrated density)
     for K in (1, 2, 3):
         torch.manual_seed(seed + 100 + K)
